@@ -202,9 +202,9 @@ func runMerge(base *storedTable, others []*storedTable, viaBlocks bool) (out *me
 
 var c05keys = []string{"a", "b", "c"}
 
-// branch edit of one key: 0 keep, 1 c1<-p, 2 c1<-q, 3 c2<-p, 4 remove (key in base)
+// branch edit of one key: 0 keep, 1 c1<-p, 2 c1<-q, 3 c2<-p, 4 remove, 5 c1<-p and c2<-p (key in base)
 //
-//	0 absent, 1 add (p,q), 2 add (q,q)          (key not in base)
+//	0 absent, 1 add (p,q), 2 add (q,q), 3 add (p,p)  (key not in base)
 //
 // column op: 0 none, 1 add column d, 2 remove c2, 3 swap c1 c2, 4 rename c2->e
 type c05branch struct {
@@ -298,6 +298,8 @@ func c05apply(base *ltable, mask int, b c05branch) *ltable {
 			case 3:
 				t.rows = append(t.rows, mk(k, "x", "p"))
 			case 4:
+			case 5:
+				t.rows = append(t.rows, mk(k, "p", "p"))
 			}
 		} else {
 			switch e {
@@ -305,6 +307,8 @@ func c05apply(base *ltable, mask int, b c05branch) *ltable {
 				t.rows = append(t.rows, mk(k, "p", "q"))
 			case 2:
 				t.rows = append(t.rows, mk(k, "q", "q"))
+			case 3:
+				t.rows = append(t.rows, mk(k, "p", "p"))
 			}
 		}
 	}
@@ -340,6 +344,8 @@ func c05expect(base *ltable, mask int, brs []c05branch) (rows []map[string]strin
 				return true, "q", "y"
 			case 3:
 				return true, "x", "p"
+			case 5:
+				return true, "p", "p"
 			}
 			return false, "", ""
 		}
@@ -348,6 +354,8 @@ func c05expect(base *ltable, mask int, brs []c05branch) (rows []map[string]strin
 			return true, "p", "q"
 		case 2:
 			return true, "q", "q"
+		case 3:
+			return true, "p", "p"
 		}
 		return false, "", ""
 	}
@@ -453,7 +461,11 @@ func mapsToSet(cols []string, rows []map[string]string) []string {
 func c05Body(nb int, shapes bool) func(c *mc.Ctx) {
 	return func(c *mc.Ctx) {
 		needRewrite("blocksize:sorter")
-		mask := c.Choose(8)
+		nk := len(c05keys)
+		if nb >= 3 && !c.Thorough() {
+			nk = 2 // quick: three branches over two keys
+		}
+		mask := c.Choose(1 << uint(nk))
 		pos, keyless := 0, false
 		if shapes {
 			pos = c.ChooseDev(3)
@@ -463,11 +475,11 @@ func c05Body(nb int, shapes bool) func(c *mc.Ctx) {
 		brs := make([]c05branch, nb)
 		anyOp := false
 		for j := range brs {
-			for i := range c05keys {
+			for i := range c05keys[:nk] {
 				if mask&(1<<uint(i)) != 0 {
-					brs[j].edits[i] = c.ChooseDev(5)
+					brs[j].edits[i] = c.ChooseDev(6)
 				} else {
-					brs[j].edits[i] = c.ChooseDev(3)
+					brs[j].edits[i] = c.ChooseDev(4)
 				}
 			}
 			if shapes {
@@ -703,15 +715,15 @@ func init() {
 	register(&mc.Check{
 		ID:    "C05",
 		Level: "exploration",
-		Rule: "base: every subset of 3 keys with two value columns, key column first / middle / last; N=2 (thorough also N=3) branches, each described by per-key edits {keep, set c1 to p or q, set c2, remove; add the missing key with one of two rows} and a column operation {none, add column d, remove c2, swap c1 c2, rename c2 to e}; " +
+		Rule: "base: every subset of 3 keys with two value columns, key column first / middle / last; N=2 and N=3 branches (quick: N=3 over two of the keys), each described by per-key edits {keep, set c1 to p or q, set c2, set both cells, remove; add the missing key with one of three rows} and a column operation {none, add column d, remove c2, swap c1 c2, rename c2 to e}; " +
 			"the base subset is enumerated completely; harness two-branches (and three-branches) stays in the plain shape (keyed, key first, no column operation) and explores edits and filler rows up to d deviations; harness two-branches-shapes explores the tuples that leave it: key position, edits / column ops / keyless tables / 5 or 16 untouched filler rows (several blocks at the scaled block size 3; 16 exceeds the insertion-sort threshold of sort.Slice, so the collector's sort is unstable) are explored up to d deviations from 'no edit'. Each tuple is ingested and merged by the real Merger the way the CLI does (conflicts discarded, removed columns = union, SortedRows and SortedBlocks -> committed table). " +
 			"Oracles: cell model for tuples that keep the column set (exact conflict set and result rows); laws merge(base;X,base)=X, merge(base;X,X)=X, merge(base;X,Y)=merge(base;Y,X) by column name; untouched rows unchanged under their own column names whatever the column ops and key position; SortedRows = SortedBlocks; committed result passes the structural oracle. " +
 			"non-trivial = some branch edits something; distinct by tuple",
 		Assumptions: []string{"a column removed by one branch and untouched by the others disappears; remove-vs-unchanged resolves to removal; remove-vs-modified and different changes to one cell are conflicts (the repository's own conventions)", "conflicted keys are discarded the way `wrgl merge --no-gui` does", "3 keys, 2 value columns, one column operation per branch, N <= 3"},
 		Harnesses: []*mc.Harness{
-			{Name: "two-branches", Variant: "b3", Body: c05Body(2, false), DevBound: map[string]int{"quick": 3, "thorough": 5}, Budget: map[string]time.Duration{"quick": 75 * time.Second, "thorough": 14 * time.Minute}},
+			{Name: "two-branches", Variant: "b3", Body: c05Body(2, false), DevBound: map[string]int{"quick": 2, "thorough": 5}, Budget: map[string]time.Duration{"quick": 75 * time.Second, "thorough": 14 * time.Minute}},
 			{Name: "two-branches-shapes", Variant: "b3", Body: c05Body(2, true), DevBound: map[string]int{"quick": 2, "thorough": 3}, Budget: map[string]time.Duration{"quick": 60 * time.Second, "thorough": 10 * time.Minute}},
-			{Name: "three-branches", Variant: "b3", OnlyTier: "thorough", Body: c05Body(3, false), DevBound: map[string]int{"thorough": 4}, Budget: map[string]time.Duration{"thorough": 14 * time.Minute}},
+			{Name: "three-branches", Variant: "b3", Body: c05Body(3, false), DevBound: map[string]int{"quick": 3, "thorough": 4}, Budget: map[string]time.Duration{"quick": 100 * time.Second, "thorough": 14 * time.Minute}},
 		},
 	})
 }
